@@ -462,8 +462,8 @@ func checkCarry(c *core.Ctx, rule string) {
 			continue
 		}
 		bin, ok := iff.Cond.(*ssa.BinOp)
-		if !ok || bin.Op != token.EQL {
-			continue
+		if !ok || (bin.Op != token.EQL && bin.Op != token.NEQ) {
+			continue // (`if a == b {carry}` or `if a != b {continue}`)
 		}
 		px, py := core.Path(bin.X), core.Path(bin.Y)
 		if strings.Contains(px+py, "GetAddress()") || strings.Contains(px+py, "GetTmAddress()") || strings.Contains(px+py, ".ID") || strings.Contains(px+py, "PubKey") {
